@@ -1589,7 +1589,8 @@ class _MemoRewrite(ast.NodeTransformer):
                 raise self.bad(node, "super().fingerprint() somewhere else than `return super().fingerprint()`")
             return ast.copy_location(ast.Call(func=ast.Name(id="vector_fingerprint", ctx=ast.Load()),
                                               args=[ast.Name(id="self__fp", ctx=ast.Load()),
-                                                    ast.Name(id="fp_full", ctx=ast.Load())], keywords=[]), node)
+                                                    ast.Name(id="fp_full", ctx=ast.Load()),
+                                                    ast.Constant(value=False)], keywords=[]), node)
         return self.generic_visit(node)
 
     def visit_If(self, node):
@@ -1664,13 +1665,28 @@ def translate_fp_memo(vector_py: Path, table_py: Path):
                     or (isinstance(n, ast.Attribute) and n.attr == nm and isinstance(n.ctx, ast.Store))):
                 raise TranslationError(table_py, n.lineno, f"table.py overrides / re-binds {nm}")
     ret = ("ofp", "ofp")
-    kv = Kernel("fingerprint", "vector_fingerprint", ["ofp", "Z"], ret, cls="Vector")
+    kv = Kernel("fingerprint", "vector_fingerprint", ["ofp", "Z", "bool"], ret, cls="Vector")
     kt = Kernel("fingerprint", "table_fingerprint", ["ofp", "Z"], ret, cls="Table")
     for file, f, k, in_table in ((vector_py, vf, kv, False), (table_py, tf, kt, True)):
         import copy
-        g = _MemoRewrite(file, f"{k.cls}.fingerprint", notes, in_table).visit(copy.deepcopy(f))
+        f = copy.deepcopy(f)
+        if not in_table:
+            # since F49: `kind = <the dtype's kind or None>` and `if self._fp is not None and isinstance(kind, type) and
+            # issubclass(kind, Vector): self._fp = None` - "the elements are vectors" is the bool parameter `nested`
+            b = [st for st in f.body if not (isinstance(st, ast.Expr) and isinstance(st.value, ast.Constant))]
+            pre = ["kind = self._dtype.kind if self._dtype is not None else None",
+                   "if self._fp is not None and isinstance(kind, type) and issubclass(kind, Vector):\n    self._fp = None"]
+            if len(b) < 2 or [ast.unparse(x) for x in b[:2]] != pre:
+                raise TranslationError(file, f.lineno, "Vector.fingerprint does not start with the nested-vectors test "
+                                                       f"(`{pre[0]}` / `{pre[1].splitlines()[0]}`)")
+            repl = ast.parse("if self._fp is not None and nested:\n    self._fp = None").body[0]
+            ast.copy_location(repl, b[1])
+            f.body = [repl] + b[2:]
+            notes.append(f"{Path(file).name}:{b[0].lineno} Vector.fingerprint: ASSUMPTION: `isinstance(kind, type) and issubclass(kind, "
+                         f"Vector)` for the dtype's kind is the parameter `nested` (the vector's elements are vectors)")
+        g = _MemoRewrite(file, f"{k.cls}.fingerprint", notes, in_table).visit(f)
         ast.fix_missing_locations(g)
-        g.args.args = [ast.arg(arg="self__fp"), ast.arg(arg="fp_full")]
+        g.args.args = [ast.arg(arg="self__fp"), ast.arg(arg="fp_full")] + ([] if in_table else [ast.arg(arg="nested")])
         k.node = g
         text, _, _ = translate_function(file, k, {(None, "vector_fingerprint"): kv} if in_table else {}, notes)
         parts.append(text.replace(f"{k.cls}.fingerprint *)", f"{k.cls}.fingerprint as (self._fp before, fingerprint of the "
@@ -2127,6 +2143,7 @@ GENERATORS = {
     "GenJoinIndex.v": lambda src: __import__("harness.translate_partition", fromlist=["translate_join_index"]).translate_join_index(src),
     "GenSanitize.v": lambda src: __import__("harness.translate_sanitize", fromlist=["translate_sanitize"]).translate_sanitize(src),
     "GenNa.v": lambda src: __import__("harness.translate_reduce", fromlist=["translate_na"]).translate_na(src),
+    "GenCsvReader.v": lambda src: __import__("harness.translate_csvreader", fromlist=["translate_csv_reader"]).translate_csv_reader(src),
 }
 
 
@@ -2188,6 +2205,7 @@ SCRIPTS = [            # (committed proof script, generated modules it needs)
     ("EqJoinIndex.v", ["GenJoinIndex.v"]),
     ("EqSanitize.v", ["GenSanitize.v"]),
     ("EqNa.v", ["GenNa.v"]),
+    ("EqCsvReader.v", ["GenCsvReader.v"]),
 ]
 NEEDED_VO = ["Base/GenPrelude", "Props/C04", "Props/C07", "Props/C18", "Props/C11", "Props/C16", "Props/C05", "Props/C19", "Props/C14", "Props/C06", "Props/C12", "Props/C09", "Props/C17"]
 BUDGET = float(__import__("os").environ.get("SERIF_TRANSLATE_BUDGET", "28"))   # seconds for one run()
